@@ -159,11 +159,16 @@ func (r *requestContext) rewriteRequest(targetURL *url.URL) func(req *httputil.P
 				func() string { return clientIP },
 				func() string { return fmt.Sprintf("%s, %s", forwardedFor, clientIP) }))
 
-			proxyReq.Out.Header.Set("X-Forwarded-Proto",
-				x.IfThenElse(len(forwardedProto) == 0, proto, forwardedProto))
+			// a header produced by the pipeline takes precedence over the value received with the request
+			if _, ok := uh["X-Forwarded-Proto"]; !ok {
+				proxyReq.Out.Header.Set("X-Forwarded-Proto",
+					x.IfThenElse(len(forwardedProto) == 0, proto, forwardedProto))
+			}
 
-			proxyReq.Out.Header.Set("X-Forwarded-Host",
-				x.IfThenElse(len(forwardedHost) == 0, proxyReq.In.Host, forwardedHost))
+			if _, ok := uh["X-Forwarded-Host"]; !ok {
+				proxyReq.Out.Header.Set("X-Forwarded-Host",
+					x.IfThenElse(len(forwardedHost) == 0, proxyReq.In.Host, forwardedHost))
+			}
 		} else {
 			proxyReq.Out.Header.Set("Forwarded", x.IfThenElseExec(len(forwarded) == 0,
 				func() string {
